@@ -32,7 +32,14 @@ pub fn fault_call(ch: &mut Chooser, kind: &str) -> Option<(Expr, Vec<Expr>)> {
             2 => (Expr::Marked(Box::new(q(Datum::Sym("a".into())))), vec![Expr::Int(1), Expr::Int(2)]),
             _ => (Expr::Marked(Box::new(app("car", vec![q(ilist(vec![1, 2]))]))), vec![Expr::Int(2)]),
         },
-        "arity" => match ch.below(8) {
+        "arity" => match ch.below(14) {
+            // builtins with a fixed number of parameters, one too many and one too few
+            8 => (var("make-vector"), vec![Expr::Int(2), Expr::Int(0), Expr::Int(0)]),
+            9 => (var("make-vector"), vec![Expr::Int(2)]),
+            10 => (var("vector-ref"), vec![var("wv"), Expr::Int(0), Expr::Int(1)]),
+            11 => (var("cons"), vec![Expr::Int(1), Expr::Int(2), Expr::Int(3)]),
+            12 => (var("car"), vec![q(ilist(vec![1])), q(ilist(vec![2]))]),
+            13 => (var("vector-set!"), vec![var("wv"), Expr::Int(0)]),
             0 => (var("two"), vec![Expr::Int(1)]),
             1 => (var("two"), vec![Expr::Int(1), Expr::Int(2), Expr::Int(3)]),
             2 => (var("var2"), vec![Expr::Int(1)]),
@@ -70,11 +77,13 @@ pub fn fault_call(ch: &mut Chooser, kind: &str) -> Option<(Expr, Vec<Expr>)> {
             1 => (var("vector-set!"), vec![Expr::VecLit(vec![Datum::Int(1), Datum::Int(2)]), Expr::Int(1), Expr::Int(9)]),
             _ => (var("vector-set!"), vec![q(Datum::Vector(vec![Datum::Int(4)])), Expr::Int(0), Expr::Int(9)]),
         },
-        "division-by-zero" => match ch.below(5) {
+        "division-by-zero" => match ch.below(7) {
             0 => (var("/"), vec![Expr::Int(1), Expr::Int(0)]),
             1 => (var("/"), vec![Expr::Int(5), app("-", vec![Expr::Int(2), Expr::Int(2)])]),
             2 => (var("floor-quotient"), vec![Expr::Int(7), Expr::Int(0)]),
             3 => (var("floor-remainder"), vec![Expr::Int(7), Expr::Int(0)]),
+            4 => (var("/"), vec![Expr::Int(0)]),
+            5 => (var("/"), vec![app("-", vec![Expr::Int(3), Expr::Int(3)])]),
             _ => (var("/"), vec![Expr::Ratio(1, 2), Expr::Int(0)]),
         },
         _ => return None,
@@ -146,9 +155,11 @@ pub fn fault_form_with(ch: &mut Chooser, kind: &'static str, context: &'static s
             // (define (later-fault a) ... FAULT ...) earlier; the faulting form only calls it, in some calling context
             let tailp = ch.chance(1, 2);
             let body = bury(ch, direct(&call), tailp, derived);
+            // the fault is the last statement of the body, or is followed by another statement
+            let stmts = if ch.chance(1, 2) { vec![body] } else { vec![body, Expr::Int(0)] };
             pre = Some(Form::Define(Def {
                 name: "later-fault".into(),
-                value: Expr::Lambda(Formals { fixed: vec!["later-arg".into()], rest: None }, body1(body)),
+                value: Expr::Lambda(Formals { fixed: vec!["later-arg".into()], rest: None }, Box::new(Body { defs: vec![], exprs: stmts })),
                 sugar: true,
             }));
             match ch.below(4) {
